@@ -167,6 +167,7 @@ def _invariant_loop(X, st, fr, ls, forinfo):
 
     idx0 = z3.IntVal(0)
     ghostvals = {}
+    entryvals = {}
     seq = item = live = None
     if is_for:
         seq, item, live = forinfo
@@ -200,18 +201,28 @@ def _invariant_loop(X, st, fr, ls, forinfo):
                     eidx(coerce_term(a[0], eidx.domain(0)))))
         for gname, g in ghostvals.items():
             env[gname] = g
+        env.update(entryvals)
         return env
 
     def inv_formulas(idx):
         env = env_for(idx)
+        import re
         out = []
         for name, text, role in ls.invariants:
+            mt = re.fullmatch(r"\s*wf\(\s*(\w+)\s*(?:,\s*['\"]([^'\"]*)['\"]\s*)?\)\s*", text)
+            if mt and mt.group(1) in env and isinstance(deref(env[mt.group(1)]), ZV):
+                for cname, crole, f in spec.wf_clauses(X, deref(env[mt.group(1)]), mt.group(2)):
+                    out.append(('%s.%s' % (name, cname), role, f))
+                continue
             out.append((name, role, spec.eval_bool(X, text, env, fr.module)))
         return out
 
     # ---- initiation
     if is_for:
         X.assume(seq.n >= 0)
+    for ename, etext in ls.entry.items():
+        entryvals[ename] = spec.eval_spec(X, etext, env_for(idx0), fr.module)
+        X.named_ghosts[ename] = entryvals[ename]
     for gname, (GT, ginit, gstep) in ls.ghost.items():
         if callable(ginit):
             ghostvals[gname] = ginit(X, env_for(idx0))
@@ -293,6 +304,7 @@ def _invariant_loop(X, st, fr, ls, forinfo):
         t = X.truth(X.ev(st.test, fr))
         X.assume(X._z(t))
     env_head = env_for(idx)
+    headvals = {hn: spec.eval_spec(X, ht, env_head, fr.module) for hn, ht in ls.head.items()}
     dec0 = None
     if ls.decreases:
         dec0 = X.num(spec.eval_spec(X, ls.decreases, env_for(idx), fr.module))
@@ -318,6 +330,7 @@ def _invariant_loop(X, st, fr, ls, forinfo):
                  kind='loop-non-interference', role='prop')
     nidx = idx + 1 if is_for else idx
     now = env_for(idx)
+    now.update(headvals)
     for gname, (GT, ginit, gstep) in ls.ghost.items():
         if callable(gstep):
             ghostvals[gname] = gstep(X, now, env_head)
